@@ -206,7 +206,12 @@ func (i *interpreter) symBinop(op token.Token, x, y value) value {
 	case kindIsFloat(k):
 		a, b := i.term(x), i.term(y)
 		s := kindSort(k)
-		cmp := func(o string) value { return i.boolSym(c.App(o, sym.Bool, a, b)) }
+		cmp := func(o string) value {
+			if r, ok := i.cmpIntConv(o, a, b); ok {
+				return r
+			}
+			return i.boolSym(c.App(o, sym.Bool, a, b))
+		}
 		switch op {
 		case token.LSS:
 			return cmp("fp.lt")
@@ -430,6 +435,11 @@ func (i *interpreter) symConv(dst types.BasicKind, x symVal) value {
 		// Narrower results are truncations of the 64-bit conversion.
 		if src != types.Float64 {
 			x = i.symConv(types.Float64, x).(symVal)
+		}
+		// float64(intN) -> int: exact for sources of at most 32 bits
+		if x.t.FromIntConv() && x.t.Args[0].Sort.Width() <= 32 {
+			signed := strings.HasPrefix(x.t.Op, "(_ to_fp 11")
+			return i.mkSym(i.extend(i.extend(x.t.Args[0], x.t.Args[0].Sort.Width(), 64, signed), 64, kindWidth(dst), false), dst)
 		}
 		lo := c.F64Lit(-9223372036854775808.0)
 		hi := c.F64Lit(9223372036854775808.0)
@@ -742,4 +752,89 @@ func (i *interpreter) decodeMultiByte(s symStr, p int, lead *sym.Term) (value, i
 		return i.mkSym(r, types.Int32), k.n
 	}
 	return bad()
+}
+
+// cmpIntConv rewrites a comparison between a float64 literal and the conversion of an
+// integer bit-vector into an integer comparison. The conversion is monotone, so
+// "float64(x) OP lit" is "x OP' T" for a threshold T found natively by binary search.
+func (i *interpreter) cmpIntConv(op string, a, b *sym.Term) (value, bool) {
+	c := i.ctx()
+	swap := map[string]string{"fp.lt": "fp.gt", "fp.gt": "fp.lt", "fp.leq": "fp.geq", "fp.geq": "fp.leq"}
+	if a.IsConst() && b.FromIntConv() {
+		a, b, op = b, a, swap[op]
+	}
+	if !(a.FromIntConv() && b.IsConst()) || a.Sort != sym.F64 || swap[op] == "" {
+		return nil, false
+	}
+	lit := math.Float64frombits(b.CBits)
+	if lit != lit {
+		return false, true // comparisons with NaN are false
+	}
+	x := a.Args[0]
+	w := x.Sort.Width()
+	signed := strings.HasPrefix(a.Op, "(_ to_fp 11")
+	// predicate P(v) = float64(v) OP lit, monotone in v
+	conv := func(v uint64) float64 {
+		if signed {
+			sh := uint(64 - w)
+			return float64(int64(v<<sh) >> sh)
+		}
+		return float64(v)
+	}
+	holds := func(v uint64) bool {
+		f := conv(v)
+		switch op {
+		case "fp.lt":
+			return f < lit
+		case "fp.leq":
+			return f <= lit
+		case "fp.gt":
+			return f > lit
+		}
+		return f >= lit
+	}
+	// domain in increasing numeric order: index k in [0, 2^w) maps to value
+	var minV, maxV uint64
+	if signed {
+		minV = uint64(1) << uint(w-1) // most negative (as bits)
+		maxV = minV - 1
+	} else {
+		minV, maxV = 0, ^uint64(0)>>uint(64-w)
+	}
+	atIdx := func(k uint64) uint64 { // k-th smallest value, as bits
+		if signed {
+			return (k + minV) & (^uint64(0) >> uint(64-w))
+		}
+		return k
+	}
+	size := ^uint64(0) >> uint(64-w)                  // number of values - 1
+	increasingTrue := op == "fp.gt" || op == "fp.geq" // P false...false true...true
+	pMin, pMax := holds(minV), holds(maxV)
+	if pMin == pMax {
+		return pMin, true // constant over the whole domain
+	}
+	// binary search for the first index where P changes
+	lo, hi := uint64(0), size // P(lo) != P(hi)
+	for hi-lo > 1 {
+		mid := lo + (hi-lo)/2
+		if holds(atIdx(mid)) == holds(atIdx(lo)) {
+			lo = mid
+		} else {
+			hi = mid
+		}
+	}
+	// threshold value = atIdx(hi): P holds for v >= T (increasing) or v < T (decreasing)
+	T := c.BVLit(atIdx(hi), w)
+	var cmpOp string
+	switch {
+	case increasingTrue && signed:
+		cmpOp = "bvsge"
+	case increasingTrue:
+		cmpOp = "bvuge"
+	case signed:
+		cmpOp = "bvslt"
+	default:
+		cmpOp = "bvult"
+	}
+	return i.boolSym(c.App(cmpOp, sym.Bool, x, T)), true
 }
